@@ -99,10 +99,24 @@ type faulter struct{ depth int }
 
 func (f *faulter) do(g *cur, id, kind int) { fault(g, id, kind) }
 
+type quiet struct{ n int }
+
+// methods whose receiver has no name
+func (quiet) do(g *cur, id, kind int) { fault(g, id, kind) }
+
+func (*quiet) pdo(g *cur, id, kind int) {
+	defer func() { g.emit("d-unnamed-recv " + strconv.Itoa(id)) }()
+	fault(g, id, kind)
+}
+
 // faultVia raises the fault directly, inside a function literal, through a
-// method, or through a function value.
+// method (named or unnamed receiver), or through a function value.
 func faultVia(g *cur, id, kind, shape int) {
-	switch shape % 4 {
+	switch shape % 6 {
+	case 4:
+		quiet{id}.do(g, id, kind)
+	case 5:
+		(&quiet{id}).pdo(g, id, kind)
 	case 0:
 		fault(g, id, kind)
 	case 1:
